@@ -607,3 +607,87 @@ Definition put_result_core : list stm :=
              [ ("queue.Full",
                 [ SIf [] []; SEv (Call "sleep"); SIf [] [] ]) ] [] [] ];
     SIf [] [] ].
+
+(* =====================================================================
+   ThreadManager: the stop protocol of the collector (and info) thread.
+   stop() of a running manager sets the thread's event and joins it; the
+   model's StartPurge is "the collector has been stopped": [stop] of
+   [run_collector_iter] is the event, the join is the thread's exit.
+   ===================================================================== *)
+Record tmst := mkTM {
+  tm_running : bool;     (* self.running *)
+  tm_event : bool;       (* the Event is set *)
+  tm_created : bool;     (* Thread object exists *)
+  tm_alive : bool;       (* started and not joined *)
+  tm_sets : nat;         (* event.set() calls *)
+  tm_joins : nat;        (* thread.join() calls *)
+  tm_reads : list string
+}.
+
+Definition tm_clear (st : tmst) : tmst :=
+  mkTM (tm_running st) (tm_event st) (tm_created st) (tm_alive st)
+       (tm_sets st) (tm_joins st) [].
+
+(* [wr] : the constant the function assigns to self.running.  Joining a
+   thread that was not started, or whose event is not set (the thread's loop
+   only ends after it), does not return: error *)
+Definition do_ev_tm (wr : bool) (e : ev) (st : tmst) : evres tmst :=
+  match e with
+  | Rd a => EOk (mkTM (tm_running st) (tm_event st) (tm_created st)
+                      (tm_alive st) (tm_sets st) (tm_joins st)
+                      (a :: tm_reads st))
+  | Wr a =>
+      if String.eqb a "running"
+      then EOk (mkTM wr (tm_event st) (tm_created st) (tm_alive st)
+                     (tm_sets st) (tm_joins st) (tm_reads st))
+      else EErr
+  | Call f =>
+      if String.eqb f "event_new" || String.eqb f "event_clear"
+      then EOk (mkTM (tm_running st) false (tm_created st) (tm_alive st)
+                     (tm_sets st) (tm_joins st) (tm_reads st))
+      else if String.eqb f "thread_new"
+      then EOk (mkTM (tm_running st) (tm_event st) true false
+                     (tm_sets st) (tm_joins st) (tm_reads st))
+      else if String.eqb f "thread_start"
+      then if tm_created st && negb (tm_alive st)
+           then EOk (mkTM (tm_running st) (tm_event st) true true
+                          (tm_sets st) (tm_joins st) (tm_reads st))
+           else EErr
+      else if String.eqb f "event_set"
+      then EOk (mkTM (tm_running st) true (tm_created st) (tm_alive st)
+                     (S (tm_sets st)) (tm_joins st) (tm_reads st))
+      else if String.eqb f "thread_join"
+      then if tm_alive st && tm_event st
+           then EOk (mkTM (tm_running st) (tm_event st) (tm_created st)
+                          false (tm_sets st) (S (tm_joins st))
+                          (tm_reads st))
+           else EErr
+      else EErr
+  | _ => EErr
+  end.
+
+(* the whole (unerased) tree is interpreted *)
+Definition run_tm (wr : bool) (gs : list (guard tmst)) (t : list stm)
+           (st : tmst) : option tmst :=
+  match interp_list tmst (do_ev_tm wr) tm_reads tm_clear 1 t st gs with
+  | IOk st' _ => Some (tm_clear st')
+  | _ => None
+  end.
+
+Definition tm_stop_guards (test : bool -> bool) : list (guard tmst) :=
+  [ (* if self.running: *)
+    (["running"], fun st => test (tm_running st)) ].
+
+(* the model of the three methods *)
+Definition tm_new : tmst := mkTM false false true false 0 0 [].
+Definition tm_model_start (st : tmst) : option tmst :=
+  if tm_created st && negb (tm_alive st)
+  then Some (mkTM true (tm_event st) true true (tm_sets st) (tm_joins st) [])
+  else None.
+Definition tm_model_stop (st : tmst) : option tmst :=
+  if tm_running st then
+    if tm_alive st
+    then Some (mkTM false true (tm_created st) false (S (tm_sets st))
+                    (S (tm_joins st)) [])
+    else None
+  else Some (tm_clear st).
